@@ -44,6 +44,11 @@ func (a *Alloc) Malloc(n int) unsafe.Pointer {
 	if err != nil {
 		panic(err)
 	}
+	// malloc does not promise zeroed memory: a fresh block is filled with a pattern, so that code which relies on
+	// zero-filled blocks (as the bundled calloc-based allocator happens to deliver) shows
+	for i := 0; i < n && i < len(mem); i++ {
+		mem[i] = 0xA5
+	}
 	a.mu.Lock()
 	defer a.mu.Unlock()
 	a.Allocs++
